@@ -614,6 +614,11 @@ def lstsq_build(case):
     # memory layout of the arrays handed to lstsq: the fit must depend on the logical (row, column) positions only
     data = relayout(data, case.get('data_layout', 'C'))
     modes = relayout(modes, case.get('modes_layout', 'C'))
+    if case.get('flat'):      # 1-D data and (k, npts) modes: the same fit, without the 2-D structure
+        data = np.array(data).ravel()
+        modes = np.array(modes).reshape(modes.shape[0], -1)
+        if case['flat'] == 'list':
+            modes = [row for row in modes]
     return modes, data, c
 
 
@@ -1023,15 +1028,18 @@ def correspondence(ctx):
             got = np.asarray(P.lstsq(modes, data), dtype=float)
         except Exception as ex:
             got = f'raised {type(ex).__name__}: {ex}'
-        K_, size = modes.shape[0], data.size
+        K_, size = len(modes), data.size
         dd = np.where(keep, data.ravel(), 0.0)
-        mm = np.where(keep[None, :], modes.reshape(K_, -1), 0.0)
+        mm = np.where(keep[None, :], np.asarray(modes).reshape(K_, -1), 0.0)
 
         def chk(rep, case=case, got=got, c=c):
             if rep == 'rankdef':
                 ctx.filtered_known['lstsq-rank-deficient-case-skipped'] += 1   # generator produced a singular case: not in scope
                 return
-            mv = [rat_to_float(v) for v in rep.split()]
+            body, _, flag = rep.partition('|')
+            if flag.strip() != 'normal-equations-hold':
+                raise C.ToolError(f'the exact oracle returned a vector that does not satisfy the normal equations: {flag.strip()}')
+            mv = [rat_to_float(v) for v in body.split()]
             if isinstance(got, str) or not close(got, mv, 1e-7):
                 ctx.disagree('lstsq', case, got if isinstance(got, str) else got.tolist(), mv)
                 ctx.pred_fail('lstsq', case, f'lstsq returned {got if isinstance(got, str) else got[:4]}; exact least squares {mv[:4]}')
@@ -1076,6 +1084,16 @@ def lstsq_cases(ctx):
                 out.append({'item': 'lstsq', 'basis': 'legendre', 'orders': [[0, 0], [1, 0], [0, 1], [1, 1], [2, 0]], 'mask': mask,
                             'shape': [6, 9], 'c': [float(int(v * 16)) / 16 for v in rng.uniform(-2, 2, 5)], 'drop': drop,
                             'poison': True, 'data_layout': dl, 'modes_layout': ml})
+    # 1-D data with (k, npts) modes (array and list of rows); degenerate one-row / one-column grids
+    for k, (flat, mask) in enumerate(itertools.product(['array', 'list'], ['none', 'dropout', 'inf'])):
+        out.append({'item': 'lstsq', 'basis': 'xy', 'orders': [[0, 0], [1, 0], [0, 1], [2, 0], [1, 1]], 'mask': mask, 'shape': [6, 7],
+                    'c': [float(int(v * 16)) / 16 for v in rng.uniform(-2, 2, 5)], 'poison': bool(k % 2), 'flat': flat,
+                    'drop': sorted(int(v) for v in rng.choice(42, size=8, replace=False))})
+    for shape, orders in (([1, 12], [[0, 0], [1, 0], [2, 0], [3, 0]]), ([13, 1], [[0, 0], [0, 1], [0, 2]])):
+        n = shape[0] * shape[1]
+        out.append({'item': 'lstsq', 'basis': 'legendre', 'orders': orders, 'mask': 'dropout', 'shape': shape,
+                    'c': [float(int(v * 16)) / 16 for v in rng.uniform(-2, 2, len(orders))], 'poison': True,
+                    'drop': sorted(int(v) for v in rng.choice(n, size=3, replace=False))})
     return out
 
 
